@@ -13,20 +13,17 @@ streams (it sits complete in a reassembly queue or has been read), (3) what the 
 a prefix, in order, of what `x` wrote to that stream, and (4) every stream of the peer on which closure has been
 reported had delivered ALL messages written to it before. -/
 theorem delivered_of_inv (s : Sys) (inv : SysInv s) (x : Bool) :
-    (s.ep x).sd = 2 → (s.ep x).connFailed = false →
+    (s.ep x).sd = 2 →
       (s.ep x).snd.wlog.length = (s.ep x).callAt ∧
       (∀ w ∈ (s.ep x).snd.wlog, Got (s.ep (!x)).rcv w) ∧
       (∀ sid, (s.ep (!x)).rcv.readOn sid =
         ((onStream (s.ep x).snd.wlog sid).take ((s.ep (!x)).rcv.readOn sid).length).map (·.1)) ∧
       (∀ sid k, (sid, k) ∈ (s.ep (!x)).rcv.eofs →
         (s.ep (!x)).rcv.readOn sid = (onStream (s.ep x).snd.wlog sid).map (·.1)) := by
-  intro hsd hcf
+  intro hsd
   obtain ⟨hme, hl⟩ := inv x
   have hpeer := (inv (!x)).1
-  have hD : Drained (s.ep x).snd := by
-    rcases (hme.ctl.sdRet hsd).2 with h | h
-    · rw [hcf] at h; cases h
-    · exact h
+  have hD : Drained (s.ep x).snd := hme.ctl.sdRet hsd
   have hpl : (s.ep (!x)).rcv.pl = (s.ep x).snd.sentq.length := by
     have h1 := hl.cumLe
     have h2 := hl.rel.plLe
@@ -109,7 +106,7 @@ theorem no_write_of_inv (s : Sys) (inv : SysInv s) (x : Bool) (sid : Nat)
 /-! ### a dead endpoint -/
 /-- what cannot change any more once the loops of an endpoint are gone -/
 def deadCore (e : Ep) : Bool × Nat × Nat × Bool × List Msg × List Msg × List Msg × Nat × Nat × List Nat :=
-  (e.dead, e.st, e.sd, e.connFailed, e.snd.wlog, e.snd.pend, e.snd.sentq, e.snd.cum, e.rcv.pl, e.rcv.rq)
+  (e.dead, e.st, e.sd, e.scr, e.snd.wlog, e.snd.pend, e.snd.sentq, e.snd.cum, e.rcv.pl, e.rcv.rq)
 
 theorem drain_got (n : Nat) (r : Rcv) (s : Nat) : ∀ c, Got r c → Got (drain n r s) c := by
   induction n generalizing r with
@@ -210,6 +207,15 @@ theorem dead_step (s : Sys) (inv : SysInv s) (x : Bool) (op : Op) (hd : (s.ep x)
     subst hy
     have : closeConn (s.ep y) = s.ep y := by simp [closeConn, hd]
     rw [this]; exact ⟨rfl, rfl, fun c hc => hc⟩
+  | closeApi y =>
+    refine hput y _ _ (fun hy => ?_)
+    subst hy
+    have : closeApi (s.ep y) = s.ep y := by simp [closeApi, hd]
+    rw [this]; exact ⟨rfl, rfl, fun c hc => hc⟩
+  | abort y =>
+    refine hput y _ _ (fun hy => ?_)
+    subst hy
+    exact ⟨rfl, rfl, fun c hc => hc⟩
 
 /-! ### delivering any packet ever sent -/
 theorem rcvData_rlog (r : Rcv) (can : Bool) (t m s k : Nat) : (rcvData r can t m s k).rlog = r.rlog := by
@@ -228,6 +234,7 @@ theorem handleChunk_rlog (e : Ep) (ch : Chunk) : (handleChunk e ch).rcv.rlog = e
   | shutdownComplete =>
     show (handleShutdownComplete e).rcv.rlog = _ ∧ (handleShutdownComplete e).rcv.eofs = _
     rw [handleShutdownComplete_rcv]; exact ⟨rfl, rfl⟩
+  | abort => exact ⟨rfl, rfl⟩
 
 theorem handlePkt_rlog (e : Ep) (p : Pkt) : (handlePkt e p).rcv.rlog = e.rcv.rlog ∧ (handlePkt e p).rcv.eofs = e.rcv.eofs := by
   have hf : ∀ (p : Pkt) (e : Ep), (p.foldl handleChunk e).rcv.rlog = e.rcv.rlog ∧ (p.foldl handleChunk e).rcv.eofs = e.rcv.eofs := by
@@ -288,7 +295,7 @@ theorem stale_of_inv (s : Sys) (inv : SysInv s) (x : Bool) (i : Nat) :
     (s.step (.deliver x i)).hist (!x) = s.hist (!x) ∧
     (∀ z, (s.ep z).st ≠ stEstablished → ((s.step (.deliver x i)).ep z).st ≠ stEstablished) ∧
     (∀ z, (s.ep z).st = stClosed → ((s.step (.deliver x i)).ep z).st = stClosed) ∧
-    (∀ z, ((s.step (.deliver x i)).ep z).sd = 2 → ((s.step (.deliver x i)).ep z).connFailed = false →
+    (∀ z, ((s.step (.deliver x i)).ep z).sd = 2 →
       ∀ w ∈ ((s.step (.deliver x i)).ep z).snd.wlog, Got ((s.step (.deliver x i)).ep (!z)).rcv w) := by
   obtain ⟨h1, h2, h3, h4, h5, h6⟩ := deliver_harmless _ inv x i
   refine ⟨h1, h2, h3, h4, h5, h6, ?_, ?_, ?_⟩
@@ -301,7 +308,28 @@ theorem stale_of_inv (s : Sys) (inv : SysInv s) (x : Bool) (i : Nat) :
     have := (dead_step _ inv z (.deliver x i) hd).1
     simp only [deadCore, Prod.mk.injEq] at this
     exact this.2.1.trans hz
-  · intro z hz hcf
-    exact (delivered_of_inv _ (step_inv _ (.deliver x i) inv) z hz hcf).2.1
+  · intro z hz
+    exact (delivered_of_inv _ (step_inv _ (.deliver x i) inv) z hz).2.1
+
+/-! ### a Shutdown call that is interrupted -/
+theorem interrupted_of_inv (s : Sys) (inv : SysInv s) (x : Bool) (d : List (List (Nat × Nat)))
+    (hsd : (s.ep x).sd = 1) (hscp : (s.ep x).scp = false) :
+    ((s.step (.closeConn x)).ep x).sd = 3 ∧ ((s.step (.closeApi x)).ep x).sd = 3 ∧
+    (((s.step (.abort x)).step (.gather x d)).ep x).sd = 3 ∧
+    ((s.step (.abort x)).step (.gather x d)).hist x = s.hist x ++ #[[Chunk.abort]] := by
+  have hctl := (inv x).1.ctl
+  have hnd : (s.ep x).dead = false := by
+    cases hd : (s.ep x).dead
+    · rfl
+    · exact absurd hsd (hctl.deadSd hd)
+  have hscr : (s.ep x).scr = false := by
+    cases hr : (s.ep x).scr
+    · rfl
+    · have := hctl.scrDead hr; rw [hnd] at this; cases this
+  refine ⟨?_, ?_, ?_, ?_⟩
+  · simp [Sys.step, closeConn, close, hnd, hsd, hscp, hscr]
+  · simp [Sys.step, closeApi, close, hnd, hsd, hscp, hscr]
+  · simp [Sys.step, abortCall, writeLoopPass, gather, close, hnd, hsd, hscp, hscr]
+  · simp [Sys.step, abortCall, writeLoopPass, gather, close, hnd]
 
 end Sd
